@@ -325,7 +325,7 @@ func upToAdvanced(set *kubeapps.StatefulSet) *apps.StatefulSet {
 	return out
 }
 
-func jsonTree(v interface{}) interface{} {
+func upJSONTree(v interface{}) interface{} {
 	data, err := json.Marshal(v)
 	if err != nil {
 		return "marshal-error"
@@ -596,8 +596,8 @@ func (w *upWorld) asDigest() string {
 	}
 	// "equal" = equal as JSON to the built-in object's spec / status read through the Advanced StatefulSet schema
 	ref := upToAdvanced(w.want)
-	se := reflect.DeepEqual(jsonTree(a.Spec), jsonTree(ref.Spec))
-	te := reflect.DeepEqual(jsonTree(a.Status), jsonTree(ref.Status))
+	se := reflect.DeepEqual(upJSONTree(a.Spec), upJSONTree(ref.Spec))
+	te := reflect.DeepEqual(upJSONTree(a.Status), upJSONTree(ref.Status))
 	return fmt.Sprintf("m%ds%dt%de%s%s", m, s, a.Status.Replicas, b2s(se), b2s(te))
 }
 
